@@ -16,6 +16,7 @@ Section C05.
   Hypothesis Hfp : v_fp_exact v = true.
   Hypothesis Hts : v_ts_exact v = true.
   Hypothesis Hlist : v_listjson_dry v = true.
+  Hypothesis Hdfg : v_dry_fail_guard v = true.
   Hypothesis Hforce : v_force_records v = true.
   Hypothesis Hinj : forall a b, Hx a = Hx b -> a = b.
 
@@ -83,9 +84,9 @@ Section C05.
       assert (Hrun : forall mm, (mm = Run \/ mm = Force \/ mm = Dry) -> m = mm ->
                 run_task matchb H Hx v t0 s mm tid t oc = (s', x) -> ok = true /\ Inv05 p s' g').
       { intros mm Hmm -> Er.
-        pose proof (run_task_summary matchb H Hx v Hsafe Hfp Hts _ _ _ _ _ _ _ _ Hsrc Hm Hmm Er) as Sm.
+        pose proof (run_task_summary matchb H Hx v Hsafe Hfp Hts Hdfg _ _ _ _ _ _ _ _ Hsrc Hm Hmm Er) as Sm.
         pose proof (Hinv _ _ Hn) as Hi.
-        destruct Sm as [Hnf Hup -> ->|Hd Hup Hss ->|Hnd Hup Hr Hnone Hoth|Hnd Hup -> Hrec Hoth].
+        destruct Sm as [Hnf Hup -> ->|Hd Hup Hss Hrd|Hnd Hup Hr Hnone Hoth|Hnd Hup -> Hrec Hoth].
         - (* skipped *)
           assert (Hat : is_attempt mm RSkipped = false) by (destruct mm; reflexivity).
           rewrite Hat in Ec.
@@ -95,7 +96,7 @@ Section C05.
             * inversion Ec; subst; auto.
             * inversion Ec; subst; auto.
           + inversion Ec; subst; auto.
-        - subst mm. cbn in Ec. inversion Ec; subst. split; auto. eapply inv05_same_store; eauto.
+        - subst mm. destruct Hrd as [-> | ->]; cbn in Ec; inversion Ec; subst; (split; [reflexivity | eapply inv05_same_store; eauto]).
         - assert (Hat : is_attempt mm x = true).
           { destruct Hmm as [->|[->| ->]]; try congruence; destruct Hr as [->|[->| ->]]; reflexivity. }
           assert (Hok : is_ok x = false) by (destruct Hr as [->|[->| ->]]; reflexivity).
